@@ -9,7 +9,7 @@ from symx import terms as T
 from symx import stubs
 from symx.framework import Obligation, V
 from symx.engine import SymReal, SymBool, term_of, current
-from symx.shim import sym_arctan
+from symx.shim import sym_arctan, Recorder
 from . import common as H
 from .common import K, Mode
 
@@ -18,7 +18,8 @@ EXPLANATION = (
     'oblique-shock conservation laws (normal momentum, total enthalpy, tangential velocity, deflection), '
     'PrandtlMeyer_function against d nu/dM and nu(1)=0, expansion_states against isentropy, total enthalpy and the '
     'Prandtl-Meyer differential relation d(turning)/dp. One stream at a time (the other stream a fixed dummy): '
-    'set_initial_state_values, determine_state_functions, set_starstate_values and assign_lineout_vals are run with a '
+    'set_initial_state_values, determine_state_functions, set_starstate_values and (through the public '
+    'IGEOS_Solver._run, which names the returned fields) assign_lineout_vals are run with a '
     'symbolic star pressure; z3 decides inflow/star velocity consistency and direction, the coded shock-angle equation '
     'at the true shock ray, Mach-line conditions at fan head, tail and interior, isentropy/enthalpy inside fans, and '
     'the region assignment for every polar angle (parametrised per region). find_overlap is executed with its '
@@ -54,6 +55,7 @@ META = {
 }
 
 M2 = 'exactpack.solvers.riemann2D_2section_steadystate.riemann2D_2section_steadystate'
+MW = 'exactpack.solvers.riemann2D_2section_steadystate.ep_riemann2D_2section_steadystate'
 G_QUICK = [Fraction(7, 5), Fraction(5, 3)]
 G_FULL = [Fraction(6, 5), Fraction(7, 5), Fraction(5, 3), Fraction(2), Fraction(3)]
 ALLTRIG = ('arctan', 'arcsin', 'sin', 'cos', 'tan')
@@ -734,24 +736,28 @@ class FanSide(Obligation):
 # ------------------------------------------------------------------ assign_lineout_vals: every polar angle, by region
 
 FIELDS = ('p', 'r', 'sie', 'M', 'u', 'v', 'speed')
+FIELD_NAMES = ('pressure', 'density', 'specific_internal_energy', 'Mach', 'x_velocity', 'y_velocity', 'speed')
 
 
 class Lineout(Obligation):
-    """assign_lineout_vals at a point of polar angle phi = A + tau (B - A), 0 < tau < 1, where (A, B) are the coded wave
-    angles bounding one region of the tested stream (or +-pi/2)."""
+    """IGEOS_Solver._run / assign_lineout_vals at a point of polar angle phi = A + tau (B - A), 0 < tau < 1, where
+    (A, B) are the coded wave angles bounding one region of the tested stream (or +-pi/2)."""
 
     def __init__(self, side, wave, region, g, gd, theta_sym=True, box=False):
         self.side, self.wave, self.region, self.g, self.gd, self.theta_sym = side, wave, region, g, gd, theta_sym
         self.box = box
         self.m = H.mod(M2)
         self.id = 'C19.lineout.%s.%s.%s.g=%s%s' % (side, wave, region, g, '.box' if box else '')
-        self.modules = [self.m]
+        self.mw = H.mod(MW)
+        self.modules = [self.m, self.mw]
+        self.extra_shim = {'ExactSolution': Recorder}
         c = self.m.SetupRiemannProblem
-        self.functions = [c.set_initial_state_values, c.determine_state_functions, c.set_starstate_values,
-                          c.assign_lineout_vals, c.expansion_states if wave == 'R' else c.compression_states]
-        self.bounds = ('one stream and the star pressure / shock angle symbolic, inflow angle symbolic in (-60, 60) deg, '
+        self.functions = [self.mw.IGEOS_Solver._run, c.set_initial_state_values, c.determine_state_functions,
+                          c.set_starstate_values, c.assign_lineout_vals,
+                          c.expansion_states if wave == 'R' else c.compression_states]
+        self.bounds = ('one stream and the star pressure / shock angle symbolic, inflow angle %s, '
                        'evaluation point (x > 0, polar angle at fraction tau in (0,1) of region "%s") symbolic; gamma fixed; '
-                       'other stream: fixed dummy' % region)
+                       'other stream: fixed dummy' % (theta_text(theta_sym), region))
         if box:
             # same claims on a moderate box of inputs: there the coded wave angles are ordered and inside (-pi/2, pi/2)
             # for the real functions too, so that solver witnesses replay on the path they were found on
@@ -788,11 +794,18 @@ class Lineout(Obligation):
         order = [sg * (inner - cd) > 0, half_pi - sg * outer > 0, cd > -half_pi, cd < half_pi]
         if self.wave == 'R':
             order.append(sg * (outer - inner) > 0)
+        # the public entry point: IGEOS_Solver._run builds the problem object (here: the one prepared above, its
+        # constructor's tabulated search being outside the claim), calls assign_lineout_vals and names the fields
+        solver = H.new_solver(self.mw.IGEOS_Solver, dict(bottom_state=prob.bottom_state, top_state=prob.top_state))
+
+        class factory(object):
+            SetupRiemannProblem = staticmethod(lambda bottom_state, top_state: prob)
+        point = H.mat([[x, x * ftan(phi)]])
         if Mode.symbolic(mk):
             assume_all([o.t for o in order])
             sane = True
-            with patched(self.m, arctan=polar_arctan):
-                prob.assign_lineout_vals(H.arr([x]), H.arr([x * ftan(phi)]))
+            with patched(self.m, arctan=polar_arctan), patched(self.mw, riemann2D_2section_steadystate=factory):
+                sol = solver(point, 1.0)
         else:
             import scipy.optimize as so
             calls = []
@@ -801,13 +814,13 @@ class Lineout(Obligation):
                 r = so.fsolve(func, x0, *a, **k)
                 calls.append(abs(float(np.ravel(func(r[0]))[0])))
                 return r
-            with patched(self.m, fsolve=rec_fsolve):
-                prob.assign_lineout_vals(H.arr([x]), H.arr([x * ftan(phi)]))
+            with patched(self.m, fsolve=rec_fsolve), patched(self.mw, riemann2D_2section_steadystate=factory):
+                sol = solver(point, 1.0)
             # outside the claim: disordered coded angles, and a real fsolve that did not converge inside the fan
             sane = all(bool(o) for o in order) and all(c < 1e-9 for c in calls)
-        row = [prob.lineout_vals[i][0] for i in range(10)]
-        out = dict(zip(FIELDS, row[3:]))
-        out.update(_g=g, _sane=sane, phi=phi, x_out=row[0], y_out=row[1],
+        f = H.first(H.fields(sol))
+        out = {k: f[n] for k, n in zip(FIELDS, FIELD_NAMES)}
+        out.update(_g=g, _sane=sane, phi=phi, x_out=f['x_position'], y_out=f['y_position'],
                    x_in=x, y_in=x * ftan(phi), cphi=fcos(phi), sphi=fsin(phi), thr=thr, _bases=(cd, psi))
         for k, v in zip('prMuv', ini):
             out[k + '0'] = v
